@@ -360,6 +360,30 @@ m('emuflag-reduce','C12',['EMU-FLAG'],'std/math/emulated/field_reduce.go','''	//
 	res.modReduced = strict
 	return res''',note='strict reduction marks the hinted remainder as reduced without comparing it with the modulus')
 m('copynoop-gkr-hintins','C19',['COPY-NOOP'],'std/gkr/compile.go','''	hintIns := make([]frontend.Variable, len(initialChallenges)+1) // hack''','''	hintIns := make([]frontend.Variable, 1, len(initialChallenges)+1) // hack''',note='buffer made with length 1 (capacity len+1): copy(hintIns[1:], initialChallenges) moves nothing')
+edit('backend/groth16/bls12-381/prove.go',[('''	var _r, _s, _kr fr.Element
+	if _, err := _r.SetRandom(); err != nil {
+		return nil, err
+	}
+	if _, err := _s.SetRandom(); err != nil {
+		return nil, err
+	}
+''','''	var _kr fr.Element
+	_r, _s, err := sampleBlinding()
+	if err != nil {
+		return nil, err
+	}
+'''),('''// Prove generates the proof of knowledge of a r1cs with full witness (secret + public part).''','''// sampleBlinding draws the two blinding scalars r and s.
+func sampleBlinding() (r, s fr.Element, err error) {
+	if _, err = r.SetRandom(); err != nil {
+		return
+	}
+	_, err = s.SetRandom()
+	return
+}
+
+// Prove generates the proof of knowledge of a r1cs with full witness (secret + public part).''')])
+save('benign-rand-helper','C20','backend/groth16/bls12-381/prove.go','the two SetRandom draws extracted into a helper returning (r, s, err)')
+m('permagree-export','C19',['PERM-AGREE'],'std/gkr/compile.go','''	return utils.Map(s.permutations.InstancesPermutation, utils.SliceAt(s.assignments[v]))''','''	return utils.Map(s.permutations.SortedInstances, utils.SliceAt(s.assignments[v]))''',note='F7 reintroduced: Export reads through the inverse permutation')
 json.dump({'comment':'selftest mutants: each patch breaks one rule instance and must be detected by the listed rule(s) of its property; produced by tools/make_selftest.py','mutants':M}, open(os.path.join(root,'selftest','mutants.json'),'w'), indent=1)
 subprocess.run(['git','-C','/repo','worktree','remove','--force',WT],capture_output=True)
 print(len(M),'mutants')
